@@ -1,4 +1,7 @@
 """C09 — Existing outputs are never overwritten and _SUCCESS marks only complete saves."""
+import bz2
+import gzip
+import io
 import itertools
 import os
 import threading
@@ -16,6 +19,15 @@ class InjectedComputeError(RuntimeError):
     pass
 
 
+def encode_by_name(name, data):
+    """compress with the stdlib codec the NAME declares (the extensions the campaign uses)"""
+    if name.endswith('.gz'):
+        return gzip.compress(data)
+    if name.endswith('.bz2'):
+        return bz2.compress(data)
+    return data
+
+
 class C09(Prop):
     id = 'C09'
     quick_cases = 700
@@ -28,7 +40,7 @@ class C09(Prop):
             'save: exception class, directory listing with decoded contents, marker presence, textFile() of a marked '
             'directory, and a follow-up job on the same context are compared with the Lean save state machine. '
             'Non-trivial = a fault is injected or the target pre-exists; distinct = distinct canonical case.')
-    trusted = ('a failing write is injected at the entry of Local.dump (no partially written file); torn writes are outside the model',
+    trusted = ('a failing write is injected in Local.dump: either before anything is written, or (torn write) after the file was created with the first half of its text (a decodable partial file; arbitrary byte-level truncation is not modelled)',
                'local in-process executor (partition order deterministic)')
 
     def setup(self, ctx):
@@ -51,6 +63,13 @@ class C09(Prop):
                     for mx in (1, 2):
                         out.append({'parts': parts, 'ext': '', 'max': mx, 'wfail': [k] if mode == 'once' else [],
                                     'wfail_from': None if mode == 'once' else k, 'cfail': [], 'pre': None})
+            for k in range(writes + 1):
+                for mx in (1, 2, 3):
+                    # torn write at crash point k (once, and on every attempt from k on), followed by a second save
+                    out.append({'parts': parts, 'ext': '.gz' if k % 2 else '', 'max': mx, 'wfail': [k], 'wfail_from': None, 'cfail': [],
+                                'pre': None, 'torn': [k], 'second': [['z']]})
+                    out.append({'parts': parts, 'ext': '', 'max': mx, 'wfail': [], 'wfail_from': k, 'cfail': [], 'pre': None,
+                                'torn': list(range(k, k + 6)), 'second': data[:max(1, n - 1)]})
             for k in range(n):
                 for c in (1, 3):
                     out.append({'parts': parts, 'ext': '.gz' if k % 2 else '', 'max': 2, 'wfail': [], 'wfail_from': None,
@@ -78,8 +97,12 @@ class C09(Prop):
             k = rng.randrange(n)
             return {'parts': parts, 'ext': '', 'max': mx, 'wfail': [], 'wfail_from': None, 'cfail': [[k, 10 ** 6]], 'pre': None,
                     'catch': True}
+        torn = [k for k in set(wfail) | (set(range(wfrom, n + 4)) if wfrom is not None else set()) if rng.random() < .5]
+        second = None
+        if rng.random() < .3:
+            second = [[rng.choice(['q', 'r']) for _ in range(rng.randint(0, 2))] for _ in range(rng.randint(1, max(1, n - 1)))]
         return {'parts': parts, 'ext': rng.choice(['', '', '.gz', '.bz2']), 'max': mx, 'wfail': wfail, 'wfail_from': wfrom,
-                'cfail': cfail, 'pre': pre}
+                'cfail': cfail, 'pre': pre, 'torn': sorted(torn), 'second': second}
 
     def nontrivial(self, case):
         return bool(case['wfail'] or case['wfail_from'] is not None or case['cfail'] or case['pre'])
@@ -124,12 +147,18 @@ class C09(Prop):
         writes = [0]
         wfail = set(case['wfail'])
         wfrom = case['wfail_from']
+        torn = set(case.get('torn') or [])
         real_dump = self.local.Local.dump
 
         def faulty_dump(fs_self, stream):
             k = writes[0]
             writes[0] += 1
             if k in wfail or (wfrom is not None and k >= wfrom):
+                if k in torn:
+                    # a torn write: the file comes into being with the first half of its text, then the write fails
+                    name = fs_self.file_name
+                    text = decode_by_name(name, stream.read()).decode('utf8')
+                    real_dump(fs_self, io.BytesIO(encode_by_name(name, text[:len(text) // 2].encode('utf8'))))
                 raise InjectedWriteError('injected failure of write #%d (%s)' % (k, os.path.basename(fs_self.file_name)))
             return real_dump(fs_self, stream)
 
@@ -158,8 +187,20 @@ class C09(Prop):
         finally:
             self.local.Local.dump = real_dump
         after = listing(root)
+        second = case.get('second')
+        if second is not None:
+            # a later, fault-free save of other data to the same path: refused whenever ANYTHING is there
+            try:
+                build_layout(sc, second).saveAsTextFile(path)
+                result2 = 'ok'
+            except self.Exists:
+                result2 = 'FileAlreadyExists'
+            except BaseException as e:  # pylint: disable=broad-except
+                result2 = 'other:' + type(e).__name__
+            after2 = listing(root)
         r = ctx.driver.ask({'p': 'C09', 'op': 'save', 'path': path, 'parts': parts, 'max': case['max'],
-                            'pre_files': pre_files, 'pre_dirs': pre_dirs, 'wfail': case['wfail'],
+                            'pre_files': pre_files, 'pre_dirs': pre_dirs, 'wfail': case['wfail'], 'torn': sorted(torn),
+                            **({'second': second} if second is not None else {}),
                             **({'wfail_from': wfrom} if wfrom is not None else {}), 'cfail': case['cfail']})
         ctx.note('result:' + r['result'])
         if result != r['result']:
@@ -170,7 +211,9 @@ class C09(Prop):
         if sorted(after) != sorted(want):
             return Mismatch('directory listing after the save differs from the model', sorted(after), sorted(want), 'C09:listing')
         marker = os.path.join(path, '_SUCCESS')
-        if marker in after and r['result'] != 'ok':
+        # (with a torn write of the marker itself the - empty - marker exists although the call raised: every part was
+        # complete before it, which is what the marker promises; that case is covered by the read-back below)
+        if marker in after and r['result'] != 'ok' and not torn:
             return Mismatch('_SUCCESS present although the save failed', sorted(after), r['result'], 'C09:marker', relation='spec')
         for name, data in after.items():
             if name in pre_files:
@@ -182,6 +225,18 @@ class C09(Prop):
                     return Mismatch('file %s is not decodable by the codec its name declares' % name, exc(e), None, 'C09:stream')
             if text != want[name]:
                 return Mismatch('content of %s differs from the model' % os.path.basename(name), text, want[name], 'C09:content')
+        if second is not None:
+            r2 = r['second']
+            ctx.note('second:' + r2['result'])
+            if result2 != r2['result']:
+                return Mismatch('a second save to the same path: outcome differs (existing output must be refused)', result2, r2['result'],
+                                'C09:second:outcome')
+            if r2['result'] == 'FileAlreadyExists' and after2 != after:
+                return Mismatch('the refused second save modified the existing output', sorted(after2), sorted(after), 'C09:second:overwrite',
+                                relation='spec')
+            if sorted(after2) != sorted(f['name'] for f in r2['files']):
+                return Mismatch('directory listing after the second save differs from the model', sorted(after2),
+                                sorted(f['name'] for f in r2['files']), 'C09:second:listing')
         # the context must remain usable
         try:
             follow = sc.parallelize([1, 2, 3], 2).map(lambda x: x + 1).sum()
